@@ -2,4 +2,5 @@ SPECIFICATION Spec
 INVARIANT Inv_Enforced
 INVARIANT Inv_Complete
 INVARIANT Inv_SameRel
+INVARIANT Inv_EnforcedFree
 CHECK_DEADLOCK FALSE
